@@ -39,7 +39,7 @@ def build : E → Smp
   | .addSC a c => .sum (build a) (.const c)
   | .addCS c a => .sum (.const c) (build a)
   | .subSS a b => .sum (build a) (.neg (build b))
-  | .subSC a c => .sum (build a) (.const (-c))
+  | .subSC a c => .sum (build a) (.neg (.const c))     -- repaired `__sub__`: the SAMPLER is negated (`-c` wraps for unsigned numpy scalars)
   | .subCS c a => .sum (.const c) (.neg (build a))
   | .mulSS a b => .prod (build a) (build b)
   | .mulSC a c => .prod (build a) (.const c)
